@@ -94,7 +94,20 @@ impl ResponseOutputFormat {
                     } else {
                         "error"
                     };
-                    response[key] = json![{"csv": json![errors]}];
+                    // notes an earlier csv sink left under that key stay as well: this
+                    // sink's notes are added to them
+                    match response
+                        .get_mut(key)
+                        .and_then(|e| e.get_mut("csv"))
+                        .and_then(|c| c.as_object_mut())
+                    {
+                        Some(notes) => {
+                            for (column, msg) in errors {
+                                notes.entry(column).or_insert(json![msg]);
+                            }
+                        }
+                        None => response[key] = json![{"csv": json![errors]}],
+                    }
                 }
                 Ok(row)
             }
